@@ -22,11 +22,19 @@ def run_world(world, idx=0, timeout=180, hashseed='0', extra_env=None, keep=Fals
     os.makedirs(d)
     with open(os.path.join(d, mod + '.py'), 'w') as f:
         f.write('import worldlib\nglobals().update(worldlib.build(__name__))\n')
+    # extra test modules that cannot be loaded: every one of them must end up as an import failure of the run
+    BROKEN = {'raise': "raise ImportError('scripted import failure')\n",
+              'exit0': 'import sys\nsys.exit(0)\n', 'exit': 'import sys\nsys.exit()\n',
+              'syntax': 'def (:\n', 'bad_suite': 'def test_suite():\n    return 42\n',
+              'suite_exit': 'import sys\n\n\ndef test_suite():\n    sys.exit(0)\n', 'empty': 'X = 1\n'}
+    for k, kind in enumerate(world.get('broken', [])):
+        with open(os.path.join(d, '%s_b%d.py' % (mod, k)), 'w') as f:
+            f.write(BROKEN[kind])
     wpath = os.path.join(d, 'world.json')
     json.dump(world, open(wpath, 'w'))
     trace = os.path.join(d, 'trace.jsonl')
     open(trace, 'w').close()
-    args = ['--path', d, '--tests-pattern', '^%s$' % mod] + list(world.get('options', []))
+    args = ['--path', d, '--tests-pattern', '^%s%s$' % (mod, r'(_b\d+)?' if world.get('broken') else '')] + list(world.get('options', []))
     spec = {'dir': d, 'args': args, 'defaults': world.get('defaults', [])}
     if 'script_parts' in world:
         spec['script_parts'] = world['script_parts']
@@ -38,6 +46,8 @@ def run_world(world, idx=0, timeout=180, hashseed='0', extra_env=None, keep=Fals
         spec['via'] = world['via']
     if world.get('falsy_streams'):
         spec['falsy_streams'] = True
+    if world.get('warmup_run'):
+        spec['warmup_run'] = True
     if 'warnings' in world:
         spec['warnings'] = world['warnings']
     if 'child_cwd' in world:
